@@ -25,6 +25,9 @@ CONSTANTS
   WriteErrKeepsEntry = FALSE
   AllowFire = FALSE
   FireRegisters = FALSE
+  RFault = FALSE
+  ReadErrEndsCalls = FALSE
+  LoopSurvivesClose = FALSE
   MaxTry = 2
 INVARIANTS Deadline
 CHECK_DEADLOCK FALSE
